@@ -9,9 +9,9 @@ ID = 'C02'
 LEVEL = 'exploration'
 BUDGET = {'quick': (12000, 80.0), 'thorough': (200000, 1500.0)}
 RULE = ('seeded swarm generation of 2-3 real J1939-22 stacks; per originator 1-8 RTS/CTS and 0-4 BAM messages (61..20000 bytes) '
-        'submitted within a short window, one or both directions, plus send_pgn calls beyond capacity while sessions are in flight; '
+        'submitted within a short window, one or both directions, plus send_pgn calls beyond capacity while sessions are in flight, and in some runs send_pgn calls made from inside the stack\'s own k-th transmission; '
         'non-trivial = at least one FD transport session ran; distinct = distinct scenario JSON')
-REQUIRED_PROBES = ['cmdt_msgs', 'bam_msgs', 'refused_at_capacity', 'bidirectional_runs', 'len_mod60_zero']
+REQUIRED_PROBES = ['cmdt_msgs', 'bam_msgs', 'refused_at_capacity', 'bidirectional_runs', 'len_mod60_zero', 'reentrant_submissions']
 DLL = 'j1939-22'
 CAP = {'cmdt': 8, 'bam': 4}
 
@@ -68,6 +68,21 @@ def generate(rng, tier, i):
                          'prio': rng.randrange(8), 'dp': rng.choice([0, 0, 1]), 'pf': pf, 'ps': ps, 'len': n,
                          'fill': rng.randrange(1 << 16)})
     scn['msgs'] = sorted(msgs, key=lambda m: m['at_us'])   # stable: keeps the plan order at equal instants
+    # application calls made from inside the originating stack's own k-th transmission (an application thread running at
+    # that very instant, or a backend that calls back): the new message must be accepted/refused and delivered like any other
+    if not saturate and rng.random() < 0.2:
+        # a broadcast requested by the same CA at the very moment its previous broadcast session ends
+        si = origins[0]
+        ci = rng.randrange(ncas[si])
+        for j, trig in enumerate([None, 'eoms', rng.choice(['eoms', 'last_dt'])][:rng.choice([2, 3])]):
+            m = {'at_us': 0, 'stack': names[si], 'ca': ci, 'prio': 6, 'dp': 0, 'pf': 0xFE, 'ps': 0xC0 + j, 'len': rng.choice([61, 121, 200]), 'fill': rng.randrange(1 << 16)}
+            if trig:
+                m['on_tx'] = trig
+            scn['msgs'].append(m)
+    if not saturate and rng.random() < 0.35:
+        for m in rng.sample(scn['msgs'], min(len(scn['msgs']), rng.randint(1, 3))):
+            if m is not scn['msgs'][0]:
+                m['on_tx'] = rng.choice([1, 2, 3, 4, 5, 6, 8, 10, rng.randrange(1, 40), 'eoms', 'eoms', 'last_dt'])
     return scn
 
 
@@ -84,7 +99,7 @@ def execute(scn, keep_log=False, hook=None):
     bus = w.bus
     exp, extra, meta = common.Counter(), common.Counter(), {}
     viol = []
-    stats = {'cmdt_msgs': 0, 'bam_msgs': 0, 'refused_at_capacity': 0, 'len_mod60_zero': 0,
+    stats = {'cmdt_msgs': 0, 'bam_msgs': 0, 'refused_at_capacity': 0, 'len_mod60_zero': 0, 'reentrant_submissions': 0,
              'bidirectional_runs': int(len({m['stack'] for m in scn['msgs']}) > 1)}
     states = set()
     t0 = sim.now
@@ -125,7 +140,15 @@ def execute(scn, keep_log=False, hook=None):
         maybe = sum(1 for r in inflight[m['stack']] if r['kind'] == mode and (r['done'] is None or sim.now < r['done'] + release_slack))
         before_frames = len(bus.frames) + len(bus.suppressed)
         before = snapshot(st)
+        # registered before the call: a submission nested inside this call's own transmission must see this session as in use
+        sa0 = st.cfg['cas'][m['ca']]['addr']
+        rec0 = {'kind': mode, 'sa': sa0, 'da': common.msg_dest(m), 'size': m['len'], 'done': None}
+        inflight[m['stack']].append(rec0)
+        nested_before = stats['reentrant_submissions']
         ok = st.cas[m['ca']].send_pgn(m['dp'], m['pf'], m['ps'], m['prio'], list(data))
+        if ok is not True:
+            inflight[m['stack']].remove(rec0)
+        nested_inside = stats['reentrant_submissions'] != nested_before
         if m['len'] % 60 == 0:
             stats['len_mod60_zero'] += 1
         if ok is True:
@@ -133,8 +156,6 @@ def execute(scn, keep_log=False, hook=None):
                 viol.append({'clause': 'accepted-beyond-capacity', 'rank': 2, 'feat': {'mode': mode},
                              'msg': 'send_pgn accepted a %s message while %d sessions of that kind were in flight' % (mode, sure)})
             stats[mode + '_msgs'] += 1
-            sa = st.cfg['cas'][m['ca']]['addr']
-            inflight[m['stack']].append({'kind': mode, 'sa': sa, 'da': common.msg_dest(m), 'size': m['len'], 'done': None})
             e, x = common.expected_deliveries(scn, m, data, meta)
             exp.update(e)
             extra.update(x)
@@ -155,8 +176,34 @@ def execute(scn, keep_log=False, hook=None):
                          'msg': 'a refused send_pgn changed the session tables or pools'})
 
     base = sim.now
+    txcount = {}
+    nest = [0]
+    pending_on_tx = [m for m in scn['msgs'] if m.get('on_tx') is not None]
+
+    def on_tx(fr):
+        k = txcount.get(fr.src, 0)
+        txcount[fr.src] = k + 1
+        if nest[0]:
+            return
+        i = rc.Id(fr.can_id)
+        kind = None
+        if i.pf == rc.PF_FD_TP_CM and len(fr.data) >= 12 and (fr.data[0] & 0xF) == rc.FD_EOMS:
+            kind = 'eoms'           # the frame that ends one of the stack's own sessions is being transmitted
+        elif i.pf == rc.PF_FD_TP_DT and len(fr.data) < 64:
+            kind = 'last_dt'
+        for m in list(pending_on_tx):
+            if m['stack'] == fr.src and (m['on_tx'] == k or (kind is not None and m['on_tx'] == kind)):
+                pending_on_tx.remove(m)
+                nest[0] += 1
+                try:
+                    stats['reentrant_submissions'] += 1
+                    submit(m)
+                finally:
+                    nest[0] -= 1
+    bus.observers.append(on_tx)
     for m in scn['msgs']:
-        sim.at(base + m['at_us'] * 1000, (lambda m=m: submit(m)), 'op')
+        if m.get('on_tx') is None:
+            sim.at(base + m['at_us'] * 1000, (lambda m=m: submit(m)), 'op')
     if hook:
         hook(w)
     longest = max([m['len'] for m in scn['msgs']] + [0])
@@ -204,6 +251,10 @@ def shrink(scn):
         if m['at_us']:
             c = copy.deepcopy(scn)
             c['msgs'][i]['at_us'] = 0
+            yield c
+        if m.get('on_tx') is not None:
+            c = copy.deepcopy(scn)
+            del c['msgs'][i]['on_tx']
             yield c
     for i, s in enumerate(scn['stacks']):
         if s['max_cmdt'] != 1:
